@@ -82,7 +82,8 @@ impl Check for C17 {
         json!({"net": net, "host": host, "is_v6": is_v6, "is_name": is_name, "form": form, "https_abs": https_abs, "explicit_port": explicit_port, "port": port, "method": method, "path": path,
             "version": *g.pick(&["HTTP/1.1", "HTTP/1.1", "HTTP/1.0"]), "headers": headers, "size_target": size_target, "host_case": host_case, "host_pos": host_pos,
             "host_header": form != "absolute" || g.chance(80), "body_with_header": body_len, "body_later": rest_len,
-            "split_seeds": (0..nsplit).map(|_| g.next() % 1_000_000).collect::<Vec<_>>(), "gap_us": *g.pick(&[0u64, 0, 500, 20_000]), "body_in_same_segment": g.chance(60),
+            "split_seeds": (0..nsplit).map(|_| g.next() % 1_000_000).collect::<Vec<_>>(), "gap_us": *g.pick(&[0u64, 0, 500, 20_000]),
+            "long_pause": if g.chance(15) { json!([g.next() % 1_000_000, *g.pick(&[6_000u64, 20_000])]) } else { Value::Null }, "body_in_same_segment": g.chance(60),
             "target": *g.pick(&["accept", "accept", "accept", "accept", "refuse"])})
     }
     fn horizon(&self, _p: &Value) -> Duration {
@@ -177,16 +178,23 @@ impl Check for C17 {
             cuts.dedup();
             cuts.push(first.len());
             let gap = plan["gap_us"].as_u64().unwrap_or(0);
+            let long_pause: Option<(usize, u64)> = plan["long_pause"].as_array().and_then(|a| Some(((a[0].as_u64()? as usize * cuts.len()) / 1_000_000, a[1].as_u64()?)));
             let (b1, b2) = (body1.clone(), body2.clone());
             let writer = anytls_simnet::spawn(async move {
                 let mut pos = 0;
-                for c in cuts {
+                for (ci, c) in cuts.into_iter().enumerate() {
                     if aw.write_all(&first[pos..c]).await.is_err() {
                         return aw;
                     }
                     pos = c;
                     if gap > 0 {
                         sleep(Duration::from_micros(gap)).await;
+                    }
+                    if let Some((at, ms)) = long_pause {
+                        if at == ci {
+                            world::fault_fired("application.long_silence_mid_request");
+                            sleep(Duration::from_millis(ms)).await;
+                        }
                     }
                 }
                 if !same && !b1.is_empty() {
@@ -204,7 +212,7 @@ impl Check for C17 {
             let mut b = vec![0u8; 8192];
             let expect_back = if is_connect { body1.len() + body2.len() } else { RESP.len() };
             loop {
-                let lim = if got.is_empty() { Duration::from_secs(60) } else { Duration::from_secs(5) };
+                let lim = (if got.is_empty() { Duration::from_secs(60) } else { Duration::from_secs(5) }) + Duration::from_millis(long_pause.map(|p| p.1).unwrap_or(0));
                 match timeout(lim, ar.read(&mut b)).await {
                     Ok(Ok(n)) if n > 0 => got.extend_from_slice(&b[..n]),
                     _ => break,
